@@ -21,6 +21,8 @@ CONSTANTS Cells, Ops, MaxOps, Progs, Flags
 VARIABLES cell, cache, ran, hist, chain
 vars == <<cell, cache, ran, hist, chain>>
 \* programs: "c" = the cell's program, "d" = a fixed other program, "x" = a parsable program whose analysis FAILS
+\* ("g" = a program that subscripts the builtin constructors: list[int], dict[str, int], ... -- evaluating the
+\* subscript must not leave anything on the process-wide constructor objects)
 \* inside the evaluation of a builtin call (`sorted(**opts)`): visit_Call pushes the definition on the recursion-
 \* detection stack (definition_chain) and the exception skips the pop.  IMPLEMENTATION-SHAPED part: every analysis
 \* that really runs starts by TifaCore.reset(), which re-creates the stack; flag chain_not_reset models a stack
